@@ -96,7 +96,18 @@ def gen() -> None:
     names = dict(zip(["Domain", "Expires", "MaxAge", "Secure", "HttpOnly", "Path", "SameSite", "Partitioned"], order))
     if len(order) != 8:
         raise px.Unsupported(f"dump_cookie has {len(order)} attributes, model has 8")
-    text = px.HEADER.format(tool="c13.py", src="http.py, sansio/http.py")
+    # the test client's jar: the statements the model coq/C13/Jar.v stands for
+    tst = px.load("test.py")
+    ck = px.find_class(tst, "Cookie")
+    frh = ast.unparse(px.find_method(ck, "_from_response_header"))
+    trh = ast.unparse(px.find_method(ck, "_to_request_header"))
+    for needle in ("header, _, parameters_str = header.partition(';')", "key, _, value = header.partition('=')",
+                   "key=key.strip()", "value=value.strip()"):
+        if needle not in frh:
+            raise px.Unsupported(f"test.Cookie._from_response_header changed: missing {needle!r}")
+    if "return f'{self.key}={self.value}'" not in trh:
+        raise px.Unsupported("test.Cookie._to_request_header changed")
+    text = px.HEADER.format(tool="c13.py", src="http.py, sansio/http.py, test.py")
     text += f"Definition cookie_no_quote_class : list (N * N) := {px.coq_ranges(nq)}.\n"
     text += f"Definition cookie_slash_class : list (N * N) := {px.coq_ranges(sl)}.\n"
     text += "Definition cookie_slash_map : list (N * list N) :=\n  [" + ";\n   ".join(
@@ -374,6 +385,26 @@ def run(chk: Check) -> None:
             chk.fail("client-jar", f"client jar round trip gives {got}", {"key": k, "value": v})
         chk.case(("jar", k, v), nontrivial=True)
     chk.count("jar", n_jar)
+
+    # the jar model (coq/C13/Jar.v) against test.Cookie on dumped and hostile Set-Cookie headers
+    from werkzeug.test import Cookie as _TestCookie
+    jar_hdrs = []
+    for k, v in dump_cases[: 1500 if quick else 20000]:
+        try:
+            jar_hdrs.append(whttp.dump_cookie(k, v, secure=rng.random() < 0.3, httponly=rng.random() < 0.3, samesite=rng.choice([None, "Lax"])))
+        except Exception:  # noqa: BLE001
+            pass
+    for _ in range(1500 if quick else 20000):
+        jar_hdrs.append(_gen_header(rng).replace("\n", " "))
+    for h in jar_hdrs:
+        lines.append(f"jar {cps(h)}")
+        try:
+            impl_out.append("ok " + cps(_TestCookie._from_response_header("localhost", "/", h)._to_request_header()))
+        except StopIteration:
+            impl_out.append("no-cookie")
+        except Exception as e:  # noqa: BLE001
+            impl_out.append("exn:" + type(e).__name__)
+    chk.count("jar-model-cases", len(jar_hdrs))
 
     # ------------------------------------------------ model side
     exe = chk.build_modelrun("C13")
